@@ -106,6 +106,24 @@ CsfThm.vos CsfThm.vok CsfThm.required_vos: CsfThm.v Base.vos Units.vos UnitsThm.
 C09Thm.vo C09Thm.glob C09Thm.v.beautified C09Thm.required_vo: C09Thm.v Base.vo Units.vo UnitsThm.vo Contents.vo Container.vo ContainerThm.vo ContainerThm2.vo Dilute.vo Solve.vo SolveThm.vo Plate.vo PlateThm.vo Prog.vo HistoryThm.vo Recipe.vo RecipeThm.vo
 C09Thm.vio: C09Thm.v Base.vio Units.vio UnitsThm.vio Contents.vio Container.vio ContainerThm.vio ContainerThm2.vio Dilute.vio Solve.vio SolveThm.vio Plate.vio PlateThm.vio Prog.vio HistoryThm.vio Recipe.vio RecipeThm.vio
 C09Thm.vos C09Thm.vok C09Thm.required_vos: C09Thm.v Base.vos Units.vos UnitsThm.vos Contents.vos Container.vos ContainerThm.vos ContainerThm2.vos Dilute.vos Solve.vos SolveThm.vos Plate.vos PlateThm.vos Prog.vos HistoryThm.vos Recipe.vos RecipeThm.vos
+ConfigThm2.vo ConfigThm2.glob ConfigThm2.v.beautified ConfigThm2.required_vo: ConfigThm2.v Base.vo Units.vo UnitsThm.vo Contents.vo Container.vo ContainerThm.vo ContainerThm2.vo Plate.vo PlateThm.vo Dilute.vo Solve.vo Prog.vo ConfigThm.vo
+ConfigThm2.vio: ConfigThm2.v Base.vio Units.vio UnitsThm.vio Contents.vio Container.vio ContainerThm.vio ContainerThm2.vio Plate.vio PlateThm.vio Dilute.vio Solve.vio Prog.vio ConfigThm.vio
+ConfigThm2.vos ConfigThm2.vok ConfigThm2.required_vos: ConfigThm2.v Base.vos Units.vos UnitsThm.vos Contents.vos Container.vos ContainerThm.vos ContainerThm2.vos Plate.vos PlateThm.vos Dilute.vos Solve.vos Prog.vos ConfigThm.vos
+CsfThm2.vo CsfThm2.glob CsfThm2.v.beautified CsfThm2.required_vo: CsfThm2.v Base.vo Units.vo UnitsThm.vo Contents.vo Container.vo ContainerThm.vo ContainerThm2.vo Plate.vo PlateThm.vo SizeThm.vo Dilute.vo Solve.vo SolveThm.vo CsfThm.vo
+CsfThm2.vio: CsfThm2.v Base.vio Units.vio UnitsThm.vio Contents.vio Container.vio ContainerThm.vio ContainerThm2.vio Plate.vio PlateThm.vio SizeThm.vio Dilute.vio Solve.vio SolveThm.vio CsfThm.vio
+CsfThm2.vos CsfThm2.vok CsfThm2.required_vos: CsfThm2.v Base.vos Units.vos UnitsThm.vos Contents.vos Container.vos ContainerThm.vos ContainerThm2.vos Plate.vos PlateThm.vos SizeThm.vos Dilute.vos Solve.vos SolveThm.vos CsfThm.vos
+Instr2.vo Instr2.glob Instr2.v.beautified Instr2.required_vo: Instr2.v Base.vo Units.vo UnitsThm.vo Contents.vo Container.vo ContainerThm.vo ContainerThm2.vo Dilute.vo Instr.vo Solve.vo Plate.vo Prog.vo
+Instr2.vio: Instr2.v Base.vio Units.vio UnitsThm.vio Contents.vio Container.vio ContainerThm.vio ContainerThm2.vio Dilute.vio Instr.vio Solve.vio Plate.vio Prog.vio
+Instr2.vos Instr2.vok Instr2.required_vos: Instr2.v Base.vos Units.vos UnitsThm.vos Contents.vos Container.vos ContainerThm.vos ContainerThm2.vos Dilute.vos Instr.vos Solve.vos Plate.vos Prog.vos
+Props/C12.vo Props/C12.glob Props/C12.v.beautified Props/C12.required_vo: Props/C12.v Base.vo Units.vo UnitsThm.vo Contents.vo Container.vo ContainerThm.vo ContainerThm2.vo Dilute.vo Solve.vo SolveThm.vo CsfThm.vo HistoryThm.vo CsfThm2.vo
+Props/C12.vio: Props/C12.v Base.vio Units.vio UnitsThm.vio Contents.vio Container.vio ContainerThm.vio ContainerThm2.vio Dilute.vio Solve.vio SolveThm.vio CsfThm.vio HistoryThm.vio CsfThm2.vio
+Props/C12.vos Props/C12.vok Props/C12.required_vos: Props/C12.v Base.vos Units.vos UnitsThm.vos Contents.vos Container.vos ContainerThm.vos ContainerThm2.vos Dilute.vos Solve.vos SolveThm.vos CsfThm.vos HistoryThm.vos CsfThm2.vos
+Props/C18.vo Props/C18.glob Props/C18.v.beautified Props/C18.required_vo: Props/C18.v Base.vo Units.vo UnitsThm.vo Contents.vo Container.vo ContainerThm.vo ContainerThm2.vo Plate.vo ConfigThm.vo PlateThm.vo Dilute.vo Solve.vo Prog.vo ConfigThm2.vo
+Props/C18.vio: Props/C18.v Base.vio Units.vio UnitsThm.vio Contents.vio Container.vio ContainerThm.vio ContainerThm2.vio Plate.vio ConfigThm.vio PlateThm.vio Dilute.vio Solve.vio Prog.vio ConfigThm2.vio
+Props/C18.vos Props/C18.vok Props/C18.required_vos: Props/C18.v Base.vos Units.vos UnitsThm.vos Contents.vos Container.vos ContainerThm.vos ContainerThm2.vos Plate.vos ConfigThm.vos PlateThm.vos Dilute.vos Solve.vos Prog.vos ConfigThm2.vos
+Props/C19.vo Props/C19.glob Props/C19.v.beautified Props/C19.required_vo: Props/C19.v Base.vo Units.vo UnitsThm.vo Contents.vo Container.vo Instr.vo ContainerThm.vo Dilute.vo Instr2.vo
+Props/C19.vio: Props/C19.v Base.vio Units.vio UnitsThm.vio Contents.vio Container.vio Instr.vio ContainerThm.vio Dilute.vio Instr2.vio
+Props/C19.vos Props/C19.vok Props/C19.required_vos: Props/C19.v Base.vos Units.vos UnitsThm.vos Contents.vos Container.vos Instr.vos ContainerThm.vos Dilute.vos Instr2.vos
 Props/C06.vo Props/C06.glob Props/C06.v.beautified Props/C06.required_vo: Props/C06.v Base.vo Units.vo UnitsThm.vo GenBase.vo gen/UnitsGen.vo UnitsGenOK.vo
 Props/C06.vio: Props/C06.v Base.vio Units.vio UnitsThm.vio GenBase.vio gen/UnitsGen.vio UnitsGenOK.vio
 Props/C06.vos Props/C06.vok Props/C06.required_vos: Props/C06.v Base.vos Units.vos UnitsThm.vos GenBase.vos gen/UnitsGen.vos UnitsGenOK.vos
@@ -133,15 +151,6 @@ Props/C10.vos Props/C10.vok Props/C10.required_vos: Props/C10.v Base.vos Units.v
 Props/C11.vo Props/C11.glob Props/C11.v.beautified Props/C11.required_vo: Props/C11.v Base.vo Units.vo UnitsThm.vo Contents.vo Container.vo ContainerThm.vo ContainerThm2.vo Dilute.vo DiluteThm.vo
 Props/C11.vio: Props/C11.v Base.vio Units.vio UnitsThm.vio Contents.vio Container.vio ContainerThm.vio ContainerThm2.vio Dilute.vio DiluteThm.vio
 Props/C11.vos Props/C11.vok Props/C11.required_vos: Props/C11.v Base.vos Units.vos UnitsThm.vos Contents.vos Container.vos ContainerThm.vos ContainerThm2.vos Dilute.vos DiluteThm.vos
-Props/C12.vo Props/C12.glob Props/C12.v.beautified Props/C12.required_vo: Props/C12.v Base.vo Units.vo UnitsThm.vo Contents.vo Container.vo ContainerThm.vo ContainerThm2.vo Dilute.vo Solve.vo SolveThm.vo CsfThm.vo HistoryThm.vo
-Props/C12.vio: Props/C12.v Base.vio Units.vio UnitsThm.vio Contents.vio Container.vio ContainerThm.vio ContainerThm2.vio Dilute.vio Solve.vio SolveThm.vio CsfThm.vio HistoryThm.vio
-Props/C12.vos Props/C12.vok Props/C12.required_vos: Props/C12.v Base.vos Units.vos UnitsThm.vos Contents.vos Container.vos ContainerThm.vos ContainerThm2.vos Dilute.vos Solve.vos SolveThm.vos CsfThm.vos HistoryThm.vos
-Props/C18.vo Props/C18.glob Props/C18.v.beautified Props/C18.required_vo: Props/C18.v Base.vo Units.vo UnitsThm.vo Contents.vo Container.vo ContainerThm.vo ContainerThm2.vo Plate.vo ConfigThm.vo
-Props/C18.vio: Props/C18.v Base.vio Units.vio UnitsThm.vio Contents.vio Container.vio ContainerThm.vio ContainerThm2.vio Plate.vio ConfigThm.vio
-Props/C18.vos Props/C18.vok Props/C18.required_vos: Props/C18.v Base.vos Units.vos UnitsThm.vos Contents.vos Container.vos ContainerThm.vos ContainerThm2.vos Plate.vos ConfigThm.vos
-Props/C19.vo Props/C19.glob Props/C19.v.beautified Props/C19.required_vo: Props/C19.v Base.vo Units.vo UnitsThm.vo Contents.vo Container.vo Instr.vo
-Props/C19.vio: Props/C19.v Base.vio Units.vio UnitsThm.vio Contents.vio Container.vio Instr.vio
-Props/C19.vos Props/C19.vok Props/C19.required_vos: Props/C19.v Base.vos Units.vos UnitsThm.vos Contents.vos Container.vos Instr.vos
 Props/C13.vo Props/C13.glob Props/C13.v.beautified Props/C13.required_vo: Props/C13.v Base.vo Plate.vo Slicer.vo SlicerThm.vo
 Props/C13.vio: Props/C13.v Base.vio Plate.vio Slicer.vio SlicerThm.vio
 Props/C13.vos Props/C13.vok Props/C13.required_vos: Props/C13.v Base.vos Plate.vos Slicer.vos SlicerThm.vos
